@@ -239,7 +239,7 @@ def value_set(prog: Program, fn: Fn, expr, depth=0) -> Optional[Set[str]]:
             if expr.id in f.params:
                 return param_value_sets(prog, f, expr.id, depth + 1)
             f = f.outer
-        return None
+        return loop_bound_values(fn, expr.id)
     if isinstance(expr, ast.JoinedStr):
         parts: List[Set[str]] = []
         for p in expr.values:
@@ -266,6 +266,46 @@ def value_set(prog: Program, fn: Fn, expr, depth=0) -> Optional[Set[str]]:
         if a is None or b is None:
             return None
         return a | b
+    return None
+
+
+def loop_bound_values(fn: Fn, name: str) -> Optional[Set[str]]:
+    """Strings a local can hold when its only bindings are targets of for-loops over folded tables:
+    ``for prefixes, name, bucket in TABLE`` -> the second component of every row of TABLE."""
+    vals: Set[str] = set()
+    found = False
+    for n in walk_fn(fn.node):
+        tgts = []
+        if isinstance(n, ast.Assign):
+            tgts = n.targets
+        elif isinstance(n, (ast.AugAssign, ast.AnnAssign, ast.NamedExpr)):
+            tgts = [n.target]
+        if any(isinstance(x, ast.Name) and x.id == name for t in tgts for x in ast.walk(t)):
+            return None                         # also bound otherwise: not decided here
+        if isinstance(n, (ast.For, ast.comprehension)) and any(
+                isinstance(x, ast.Name) and x.id == name for x in ast.walk(n.target)):
+            it = fold_in_fn(n.iter, fn, default=None)
+            if isinstance(it, dict):
+                it = list(it)
+            if not isinstance(it, (tuple, list, set, frozenset)):
+                return None
+            for row in it:
+                got = _component(n.target, row, name)
+                if not isinstance(got, str):
+                    return None
+                vals.add(got)
+            found = True
+    return vals if found else None
+
+
+def _component(target, value, name: str):
+    if isinstance(target, ast.Name):
+        return value if target.id == name else None
+    if isinstance(target, (ast.Tuple, ast.List)) and isinstance(value, (tuple, list)) and len(value) == len(target.elts):
+        for t, v in zip(target.elts, value):
+            got = _component(t, v, name)
+            if got is not None:
+                return got
     return None
 
 
